@@ -117,24 +117,6 @@ func genStore(r *Rng, n int, style string) []KV {
 	return out
 }
 
-// seqStore builds exactly n pairs k000..k(n-1) — used where the result size
-// must be controlled exactly (C08 grid).
-func seqStore(r *Rng, n int, style string) []KV {
-	out := make([]KV, n)
-	for i := 0; i < n; i++ {
-		out[i] = KV{fmt.Sprintf("k%03d", i), genValue(r, style)}
-	}
-	return out
-}
-
-func storeKeys(init []KV) []string {
-	ks := make([]string, len(init))
-	for i, kv := range init {
-		ks[i] = kv.K
-	}
-	return ks
-}
-
 // pickKey returns an existing key most of the time, otherwise an absent one.
 func pickKey(r *Rng, init []KV) string {
 	if len(init) > 0 && r.Chance(0.8) {
